@@ -869,6 +869,43 @@ class Stats:
         return d
 
 
+
+# ---- second-opinion dump: a sample of the queries as SMT-LIB2 (tools/crosscheck.py re-solves them) ----
+_DUMP_DIR = os.environ.get('VERIF_DUMP_SMT')
+_DUMP_EVERY = int(os.environ.get('VERIF_DUMP_EVERY', '40'))
+_DUMP_MAX = int(os.environ.get('VERIF_DUMP_MAX', '150'))
+_dump_state = {'n': 0, 'written': 0, 'pid': None}
+
+
+def _dump_query(assertions, result, kind):
+    """Write every _DUMP_EVERY-th decided query of this process (at most _DUMP_MAX) with z3's verdict."""
+    if not _DUMP_DIR or result not in ('sat', 'unsat'):
+        return
+    st = _dump_state
+    if st['pid'] != os.getpid():
+        st.update(n=0, written=0, pid=os.getpid())
+    st['n'] += 1
+    if st['n'] % _DUMP_EVERY != 1 and _DUMP_EVERY > 1:
+        return
+    if st['written'] >= _DUMP_MAX:
+        return
+    st['written'] += 1
+    try:
+        s = z3.Solver()
+        for a in assertions:
+            s.add(a)
+        text = s.to_smt2()
+        if len(text) > 400000:
+            return
+        os.makedirs(_DUMP_DIR, exist_ok=True)
+        path = os.path.join(_DUMP_DIR, '%s-%d-%05d.smt2' % (kind, os.getpid(), st['n']))
+        with open(path, 'w') as f:
+            f.write('; z3-verdict: %s\n' % result)
+            f.write(text)
+    except Exception:
+        pass
+
+
 class Engine:
     """One engine per worker process; explores paths of one harness."""
 
@@ -961,6 +998,8 @@ class Engine:
         t0 = time.perf_counter()
         r = str(s.check())
         self.stats.solver_s += time.perf_counter() - t0
+        if _DUMP_DIR:
+            _dump_query(s.assertions(), r, 'fp')
         if r == 'unsat':
             self.stats.q_unsat += 1
             self.stats.discharged += 1
@@ -1009,6 +1048,8 @@ class Engine:
             r = self.solver.check()
             res = str(r)
             model = self.solver.model() if res == 'sat' else None
+            if _DUMP_DIR:
+                _dump_query(self.solver.assertions(), res, 'inc')
         finally:
             self.solver.pop()
         self.stats.solver_s += time.perf_counter() - t0
@@ -1035,6 +1076,8 @@ class Engine:
         res = str(s.check())
         model = s.model() if res == 'sat' else None
         self.stats.solver_s += time.perf_counter() - t0
+        if _DUMP_DIR:
+            _dump_query(s.assertions(), res, 'fp')
         if res == 'sat':
             self.stats.q_sat += 1
         elif res == 'unsat':
@@ -1310,6 +1353,8 @@ class Engine:
             t0 = time.perf_counter()
             r = str(s.check())
             self.stats.solver_s += time.perf_counter() - t0
+            if _DUMP_DIR:
+                _dump_query(s.assertions(), r, 'fp')
             setattr(self.stats, 'q_' + (r if r in ('sat', 'unsat') else 'unknown'),
                     getattr(self.stats, 'q_' + (r if r in ('sat', 'unsat') else 'unknown')) + 1)
             return r, (s.model() if r == 'sat' else None)
